@@ -55,6 +55,9 @@
 
 #![cfg_attr(docsrs, feature(doc_cfg, doc_auto_cfg))]
 
+#[cfg(libp2p_verif)]
+mod verif;
+
 #[cfg(feature = "tokio")]
 pub mod tokio {
     use std::sync::Arc;
